@@ -168,6 +168,8 @@ def oracles(scn, raw):
                     out.append(('C10', 'Request(%d,%d,%d) sent to %s is not a block of the piece (16 KiB tiling, remainder last)' % (i, b, l, a)))
     # O7 handshakes
     for a in names:
+        if a not in incoming and a not in outgoing:
+            continue
         w = wire[a]
         if w:
             f0 = w[0][2]
@@ -249,10 +251,16 @@ def oracle_c20(scn, raw, info):
         ex = info['exits'].get(a)
         end = ex[0] if ex else raw[-1]['vt']
         kas = [vt for seq, vt, f in info['wire'][a] if f['k'] == 'KeepAlive']
+        # emission instants are taken from the timer hook (the harness reads the wire only at the end of its
+        # own sleep slices); every emitted keep-alive must also arrive on the wire, later by at most one slice
+        ticks = [e['vt'] for e in raw if e['src'] == 'h' and e['ev'] == 'End' and e['peer'] == a and e['trig']['k'] == 'TickKA'
+                 and any(f['k'] == 'KeepAlive' for f in e['sent'])]
         # the client emits a keep-alive at every interval while the connection lives (except the tick that times out)
         want = [born + n * KA for n in range(1, 100) if born + n * KA < end - 5]
-        if len(kas) < len(want) or any(abs(x - y) > 50 for x, y in zip(kas, want)):
-            out.append(('C20', 'keep-alives to %s at %s ms, expected one per interval at %s' % (a, kas[:6], want[:6])))
+        if len(ticks) < len(want) or any(abs(x - y) > 20 for x, y in zip(ticks, want)):
+            out.append(('C20', 'keep-alives to %s emitted at %s ms, expected one per interval at %s' % (a, ticks[:6], want[:6])))
+        if len(kas) < len([t for t in ticks if t < raw[-1]['vt'] - 6000]) or any(k < t or k > t + 6000 for k, t in zip(kas, ticks)):
+            out.append(('C20', 'keep-alives emitted at %s did not arrive on the wire of %s (observed %s)' % (ticks[:6], a, kas[:6])))
         # silence: last non keep-alive frame from the peer
         nonka = [vt for seq, vt, f in info['sends'][a] if f['k'] != 'KeepAlive' and vt <= end]
         last = max(nonka) if nonka else born
@@ -439,8 +447,8 @@ def check_c01(tier, replay=None):
     m = mult(tier)
     plan = [(G.adversarial, 40 * m, {'kinds': ['Unchoke', 'Unchoke', 'Choke', 'Piece', 'Piece', 'PieceBad', 'PieceOdd', 'Have', 'Bitfield', 'serve', 'advance', 'close']}),
             (G.honest, 8 * m, {}), (G.upload, 8 * m, {})]
-    return swarm_check('C01', tier, plan, ['Unchoke', 'Choke', 'Bitfield', 'Piece', 'Bad'],
-                       design_over=dict(Fuel=4) if tier == 'quick' else dict(Fuel=5, MaxQ=2),
+    return swarm_check('C01', tier, plan, ['Unchoke', 'Bitfield', 'Piece', 'Bad'],
+                       design_over=dict(Fuel=3, BFMenu='{{1, 2}}') if tier == 'quick' else dict(Fuel=4, MaxQ=2),
                        vacuity={'completions': 10, 'bad_piece_exits': 1}, replay=replay,
                        rule='C01: disk holds only good pieces (TDisk binds the spec store to the scanned directory), owned/served/advertised implies stored, a corrupt assembly ends the task without a write.')
 
@@ -448,8 +456,8 @@ def check_c01(tier, replay=None):
 def check_c02(tier, replay=None):
     m = mult(tier)
     plan = [(G.honest, 40 * m, {})]
-    return swarm_check('C02', tier, plan, ['Unchoke', 'Bitfield', 'Piece', 'Have', 'Bad'],
-                       design_over=dict(Fuel=4) if tier == 'quick' else dict(Fuel=5, MaxQ=2),
+    return swarm_check('C02', tier, plan, ['Unchoke', 'Bitfield', 'Piece', 'Have'],
+                       design_over=dict(Fuel=3, BFMenu='{{1, 2}}') if tier == 'quick' else dict(Fuel=4, MaxQ=2),
                        extra_oracles=[oracle_c02], vacuity={'completions': 40}, replay=replay,
                        assumptions=['liveness on the implementation is tested with a virtual-time bound of 25 s after the last scripted action'],
                        rule='C02: honest swarms (every piece offered by a staying honest peer; other peers leave at arbitrary points; random geometry, distribution, '
@@ -459,8 +467,8 @@ def check_c02(tier, replay=None):
 def check_c08(tier, replay=None):
     m = mult(tier)
     plan = [(G.handshakes, 40 * m, {}), (G.adversarial, 8 * m, {})]
-    return swarm_check('C08', tier, plan, ['Handshake', 'Bad', 'Bitfield', 'Interested', 'Request', 'Unchoke'],
-                       design_over=dict(HS0='FALSE', Fuel=4) if tier == 'quick' else dict(HS0='FALSE', Fuel=5),
+    return swarm_check('C08', tier, plan, ['Handshake', 'Bad', 'Bitfield', 'Request'],
+                       design_over=dict(HS0='FALSE', Fuel=3, BFMenu='{{1, 2}}') if tier == 'quick' else dict(HS0='FALSE', Fuel=5),
                        vacuity={'exits': 10}, replay=replay,
                        rule='C08: good / wrong-hash / wrong-id / wrong-protocol / late / repeated / missing handshakes on incoming and outgoing connections with a seeded store.')
 
@@ -468,8 +476,8 @@ def check_c08(tier, replay=None):
 def check_c09(tier, replay=None):
     m = mult(tier)
     plan = [(G.upload, 40 * m, {})]
-    return swarm_check('C09', tier, plan, ['Unchoke', 'Bitfield', 'Piece', 'Request', 'Interested'],
-                       design_over=dict(Peers='{a, b}', NPieces=1, NBlocks='N1', Fuel=5) if tier == 'quick' else dict(NPieces=1, NBlocks='N1', Fuel=6, MaxQ=2),
+    return swarm_check('C09', tier, plan, ['Unchoke', 'Bitfield', 'Piece', 'Request'],
+                       design_over=dict(NPieces=1, NBlocks='N1', Fuel=3, BFMenu='{{1}}') if tier == 'quick' else dict(NPieces=1, NBlocks='N1', Fuel=5, BFMenu='{{1}}', MaxQ=2),
                        vacuity={'pieces_served': 15}, replay=replay,
                        rule='C09: after a download a leecher requests in-range, zero-length, 16 KiB, over-long, out-of-range, wrapping (begin+len >= 2^32), unknown-index and '
                             'not-owned ranges, before and after being choked by a rotation; every Piece frame on the wire must answer an outstanding request with the stored bytes while unchoked.')
@@ -479,7 +487,7 @@ def check_c10(tier, replay=None):
     m = mult(tier)
     plan = [(G.honest, 20 * m, {}), (G.adversarial, 25 * m, {})]
     return swarm_check('C10', tier, plan, ['Unchoke', 'Choke', 'Bitfield', 'Piece'],
-                       design_over=dict(NPieces=2, NBlocks='N3b', Fuel=5, Peers='{a}') if tier == 'quick' else dict(NBlocks='N3b', Fuel=6),
+                       design_over=dict(NBlocks='N3b', Fuel=6, Peers='{a}', BFMenu='{{1, 2}}') if tier == 'quick' else dict(NBlocks='N3b', Fuel=5, BFMenu='{{1, 2}}'),
                        vacuity={'requests_written': 100, 'completions': 20}, replay=replay,
                        rule='C10: requests on the wire are proper blocks of the assigned piece; RequestsTile/RxShape and the logged requested/left queues are checked at every task step.')
 
@@ -487,8 +495,8 @@ def check_c10(tier, replay=None):
 def check_c11(tier, replay=None):
     m = mult(tier)
     plan = [(G.honest, 25 * m, {'npeers': 3}), (G.upload, 15 * m, {})]
-    return swarm_check('C11', tier, plan, ['Handshake', 'Unchoke', 'Choke', 'Bitfield', 'Piece'],
-                       design_over=dict(HS0='FALSE', Fuel=5, NPieces=2, NBlocks='N1x2') if tier == 'quick' else dict(HS0='FALSE', Fuel=6, NBlocks='N1x2', MaxQ=2),
+    return swarm_check('C11', tier, plan, ['Handshake', 'Unchoke', 'Bitfield', 'Piece'],
+                       design_over=dict(HS0='FALSE', Fuel=4, NBlocks='N1x2', BFMenu='{{1, 2}}') if tier == 'quick' else dict(HS0='FALSE', Fuel=5, NBlocks='N1x2', MaxQ=2),
                        vacuity={'bitfields_written': 20, 'haves_written': 20}, replay=replay,
                        assumptions=['a connection task lags fewer than 32 broadcasts behind (tokio broadcast capacity)'],
                        rule='C11: bitfields on the wire equal the stored set, Have only after store, deferred announcements delivered in completion order (AnnouncedInOrder on ghost due/ann).')
@@ -497,8 +505,8 @@ def check_c11(tier, replay=None):
 def check_c12(tier, replay=None):
     m = mult(tier)
     plan = [(G.adversarial, 60 * m, {}), (G.honest, 6 * m, {})]
-    return swarm_check('C12', tier, plan, ['Unchoke', 'Choke', 'Bitfield', 'Piece', 'Have', 'Bad'],
-                       design_over=dict(Fuel=3) if tier == 'quick' else dict(Fuel=4, MaxQ=2),
+    return swarm_check('C12', tier, plan, ['Unchoke', 'Choke', 'Bitfield', 'Piece'] if tier == 'quick' else ['Unchoke', 'Choke', 'Bitfield', 'Piece', 'Have', 'Bad'],
+                       design_over=dict(Fuel=3, BFMenu='{{1, 2}}') if tier == 'quick' else dict(Fuel=4, MaxQ=2),
                        vacuity={'mgr_events': 500, 'completions': 5}, replay=replay,
                        rule='C12: repeated/out-of-order choke, unchoke, have, bitfield, blocks, disconnects over several peers; the whole manager state after every command must be '
                             'the one the specification action produces, ReservedBacked/HaveStable/NoPanic evaluated in every state.')
@@ -507,8 +515,8 @@ def check_c12(tier, replay=None):
 def check_c13(tier, replay=None):
     m = mult(tier)
     plan = [(G.adversarial, 30 * m, {}), (G.honest, 12 * m, {'gname': 'g12'}), (G.honest, 8 * m, {})]
-    return swarm_check('C13', tier, plan, ['Unchoke', 'Choke', 'Bitfield', 'Have', 'Piece'],
-                       design_over=dict(Fuel=3, NPieces=3, NBlocks='N1x3', EndGame=2) if tier == 'quick' else dict(Fuel=4, NPieces=3, NBlocks='N1x3'),
+    return swarm_check('C13', tier, plan, ['Unchoke', 'Bitfield', 'Have'],
+                       design_over=dict(Fuel=2, NPieces=3, NBlocks='N1x3', BFMenu='{{1, 2}, {3}}') if tier == 'quick' else dict(Fuel=3, NPieces=3, NBlocks='N1x3', BFMenu='{{1, 2}, {3}, {1, 2, 3}}'),
                        vacuity={'mgr_events': 500}, replay=replay,
                        rule='C13: every logged piece choice must be in PickSet (rarest among what the peer advertises and the client lacks, reserved pieces only in end game, none iff no candidate); '
                             '12-piece torrents cover both sides of END_GAME_LIMIT = 10.')
@@ -516,10 +524,10 @@ def check_c13(tier, replay=None):
 
 def check_c14(tier, replay=None):
     m = mult(tier)
-    plan = [(G.choking, 25 * m, {})]
-    return swarm_check('C14', tier, plan, ['Bitfield', 'Interested', 'NotInterested'],
-                       design_over=dict(Peers='{a, b, c}', NPieces=1, NBlocks='N1', TickFuel=1, Fuel=2, MaxUnchoked=1) if tier == 'quick'
-                       else dict(Peers='{a, b, c}', NPieces=1, NBlocks='N1', TickFuel=1, Fuel=3, MaxUnchoked=1),
+    plan = [(G.choking, 20 * m, {}), (G.rotation_race, 20 * m, {})]
+    return swarm_check('C14', tier, plan, ['Bitfield', 'Interested'] if tier == 'quick' else ['Bitfield', 'Interested', 'NotInterested'],
+                       design_over=dict(Peers='{a, b}', NPieces=1, NBlocks='N1', TickFuel=1, Fuel=2, MaxUnchoked=1, BFMenu='{{1}}', OptRounds=1) if tier == 'quick'
+                       else dict(Peers='{a, b, c}', NPieces=1, NBlocks='N1', TickFuel=1, Fuel=2, MaxUnchoked=1, BFMenu='{{1}}'),
                        extra_oracles=[oracle_c14], vacuity={'rotations_executed': 10}, replay=replay,
                        rule='C14: 3-14 peers against the real limits (10 + 1), interest flips, injected rate vectors with ties, bitfield bursts, 3-5 rotations; SlotBound in every '
                             'state, RotationPolicy on every executed rotation, ViewAgreement at quiescent states, last Choke/Unchoke on the wire against the manager.')
@@ -529,8 +537,148 @@ def check_c20(tier, replay=None):
     m = mult(tier)
     plan = [(G.keepalive, 25 * m, {})]
     return swarm_check('C20', tier, plan, ['KeepAlive', 'Have', 'Bad'],
-                       design_over=dict(Peers='{a}', NPieces=1, NBlocks='N1', TickFuel=6, Fuel=3, Rates='{0}') if tier == 'quick'
-                       else dict(Peers='{a, b}', NPieces=1, NBlocks='N1', TickFuel=5, Fuel=3, Rates='{0}'),
+                       design_over=dict(Peers='{a}', NPieces=1, NBlocks='N1', TickFuel=6, Fuel=3, Rates='{0}', BFMenu='{{1}}') if tier == 'quick'
+                       else dict(Peers='{a, b}', NPieces=1, NBlocks='N1', TickFuel=5, Fuel=3, Rates='{0}', BFMenu='{{1}}'),
                        extra_oracles=[oracle_c20], vacuity={'keepalive_timeouts': 5}, replay=replay,
                        rule='C20: silence from the start / after the handshake / keep-alives only / live / live then silent / around the 120 s boundaries (+-1 ms) in virtual time; '
                             'keep-alive emission times, time of the timeout close and release of the peer are checked on the wire and in the manager state.')
+
+
+def oracle_c19(scn, raw, info):
+    out = []
+    if scn.sc.get('family') != 'tracker':
+        return out
+    nfail = scn.sc['nfail']
+    listed = raw[0]['peers'][1]['addr']
+    live = raw[0]['peers'][0]['addr']
+    hs_t = [vt for seq, vt, f in info['wire'][listed] if f['k'] == 'Handshake']
+    if not hs_t:
+        out.append(('C19', 'after %d failed announces and a good one the listed peer %s was never contacted' % (nfail, listed)))
+    elif hs_t[0] > nfail * 1000 + 5000:
+        out.append(('C19', 'listed peer contacted only at %d ms after %d failed announces' % (hs_t[0], nfail)))
+    # the live connection keeps being served while announces fail
+    want = {'Interested': 'RecvInterested', 'NotInterested': 'RecvNotInterested', 'Have': 'RecvHave', 'Choke': 'RecvChoke'}
+    mgr = [(e['vt'], e['ev']) for e in raw if e['src'] == 'mgr' and e['peer'] == live]
+    late = 0
+    for seq, vt, f in info['sends'][live]:
+        if f['k'] in want and vt < nfail * 1000:
+            if not any(ev == want[f['k']] and vt <= t <= vt + 100 for t, ev in mgr):
+                late += 1
+    if late:
+        out.append(('C19', '%d commands of the connected peer were not handled while announces were failing (%d failures)' % (late, nfail)))
+    end = raw[-1]
+    if end.get('ev') == 'End' and not end.get('session_alive'):
+        out.append(('C19', 'the session task ended'))
+    return out
+
+
+def check_c19(tier, replay=None):
+    import doc_checks
+    pid = 'C19'
+    V = Verdict(pid, tier)
+    rng = random.Random(seed())
+    if replay:
+        r = json.load(open(replay))['replay']
+        if 'input_hex' in r:
+            o = run_mbt([{'op': 'tracker_resp', 'input': r['input_hex']}])[0]
+            bad = doc_checks.judge_reply(r['reading'], o)
+        else:
+            S = [sw.Scenario(r['scenario'])]
+            raw = sw.run_scenarios(pid, S)
+            ov, info = oracles(S[0], raw[0])
+            bad = [m for p, m in ov + oracle_c19(S[0], raw[0], info) if p == pid]
+        log('replay => %s' % (bad,))
+        if bad:
+            print('VIOLATION property=%s replay=%s' % (pid, replay))
+            return 1
+        return 0
+    # (1) reply parsing against TrackerDoc.tla
+    states, transitions, docs = doc_checks.tracker_reply_docs(pid, tier)
+    cases = [{'op': 'tracker_resp', 'input': doc_checks.b(d['bytes']).hex()} for _, _, d in docs]
+    junk = []
+    for _ in range(150 if tier == 'quick' else 3000):
+        base = bytearray(doc_checks.b(rng.choice(docs)[2]['bytes']))
+        for _ in range(rng.randrange(1, 4)):
+            if base:
+                i = rng.randrange(len(base))
+                if rng.random() < 0.5:
+                    base[i] = rng.choice(b'ilde:0-19\x00\xff')
+                else:
+                    del base[i:i + rng.randrange(1, 4)]
+        junk.append(bytes(base))
+    obs = run_mbt(cases + [{'op': 'tracker_resp', 'input': j.hex()} for j in junk])
+    agree = accepted = 0
+    for (order, choice, d), o in zip(docs, obs):
+        bad = doc_checks.judge_reply(d['reading'], o)
+        accepted += bool(o.get('ok'))
+        if bad:
+            V.violation('%s; reply %r' % (bad, doc_checks.b(d['bytes'])[:300]), {'input_hex': doc_checks.b(d['bytes']).hex(), 'reading': d['reading'], 'observed': o}, None)
+        else:
+            agree += 1
+    for j, o in zip(junk, obs[len(cases):]):
+        if 'panic' in o or 'crash' in o:
+            V.violation('reply parser panicked on %r: %s' % (j[:200], o.get('panic') or o.get('crash')), {'input_hex': j.hex(), 'reading': None, 'observed': o}, None)
+        else:
+            agree += 1
+    # (2) design: manager x tracker task x bounded channel x join (liveness under fairness)
+    res = run_tlc('TrackerLoop', 'TrackerLoop.cfg' if tier == 'quick' else 'TrackerLoop_Deep.cfg', pid, workers=4, timeout=900, tag='trackerloop')
+    if res['violation']:
+        V.violation('TrackerLoop.tla (design level) violates a temporal property', {'design': True, 'tlc': res['stdout'][-3000:]}, None)
+    states += res.get('distinct', 0)
+    transitions += res.get('generated', 0)
+    # (3) the real session with the scripted tracker transport
+    fails = [0, 1, 2, 5, 63, 64, 65, 66] if tier == 'quick' else [0, 1, 2, 3, 5, 10, 30, 62, 63, 64, 65, 66, 67, 70, 120, 200]
+    scs = [G.tracker(rng, nf) for nf in fails]
+    S = [sw.Scenario(s) for s in scs]
+    raw = sw.run_scenarios(pid, S)
+    enc = [sw.Encoder(s, r).encode() for s, r in zip(S, raw)]
+    acc, probs = sw.validate(pid, S, enc)
+    for p in probs:
+        V.violation('tracker scenario %d (%d failures): trace not accepted by Swarm.tla (%s %s)' % (p['scenario'], scs[p['scenario']]['nfail'], p['kind'], p['inv']),
+                    {'scenario': scs[p['scenario']], 'problem': {k: v for k, v in p.items() if k != 'tlc_tail'}}, None)
+    for s, r in zip(S, raw):
+        ov, info = oracles(s, r)
+        for prop, msg in ov + oracle_c19(s, r, info):
+            if prop == pid:
+                V.violation(msg, {'scenario': s.sc, 'oracle': msg}, None)
+    vac = None if accepted >= 5 else 'too few accepted replies'
+    cov = {
+        'states': states, 'transitions': transitions, 'traces_validated_against_impl': agree + acc,
+        'samples': [{'reply': doc_checks.b(d['bytes']).decode('latin1')[:160], 'failure': d['reading']['failure'], 'peers': len(d['reading']['peers'])} for _, _, d in docs[:: max(1, len(docs) // 4)]][:4],
+        'exhaustive': True, 'evaluations': len(cases) + len(junk) + len(scs), 'reply_documents': len(cases), 'mutated_replies': len(junk),
+        'failure_run_lengths': fails, 'accepted_replies': accepted,
+        'rule': 'reply documents from the TrackerDoc.tla variant menus (failure reason, interval absent/negative/wrong type, peers absent/not a list/compact string, entries without ip, '
+                'ids of 19/20/21 bytes, negative or string ports, non-dictionary entries, two entry orders) with the reading computed by TLC; TrackerLoop.tla checked under fairness for '
+                'EventuallyContacted / PeersServed / NeverStuck; the real session runs with a scripted tracker transport (refused, HTTP 4xx/5xx, garbage, failure reason, malformed reply) for '
+                'runs of failures around the channel capacity (63..66) while a connected peer keeps sending commands',
+    }
+    return V.finish(cov, ['tracker transport is scripted at the reqwest boundary (hook H3); the 1 s retry delay runs in virtual time',
+                          'the channel capacity in TrackerLoop.tla is scaled to 2 (64 in rdest); the implementation runs use the real 64'], vacuous=vac)
+
+
+def c06_task_level(V, tier, rng):
+    """C06 at the level of the connection task: fatal input must end the task at that very instant
+    (not minutes later through the keep-alive timeout), a flood after it must not be buffered."""
+    n = 30 if tier == 'quick' else 300
+    scs = [G.malformed(rng) for _ in range(n)]
+    S = [sw.Scenario(s) for s in scs]
+    raw = sw.run_scenarios('C06', S)
+    enc = [sw.Encoder(s, r).encode() for s, r in zip(S, raw)]
+    acc, probs = sw.validate('C06', S, enc)
+    for p in probs:
+        if p['inv'] == 'NoPanic' or 'C06' in labels_of(p['event']):
+            V.violation('connection task run with fatal input %s: trace not accepted by Swarm.tla (%s %s at event %s)' % (
+                scs[p['scenario']].get('fatal'), p['kind'], p['inv'], json.dumps(p['event'])[:200]),
+                {'scenario': scs[p['scenario']], 'level': 'task'}, None)
+    ok = 0
+    for s, r in zip(S, raw):
+        ov, info = oracles(s, r)
+        bad = [m for p, m in ov if p == 'C06']
+        for m in bad:
+            V.violation(m, {'scenario': s.sc, 'level': 'task', 'oracle': m}, None)
+        ok += not bad
+        for e in r:
+            if e['src'] == 'h' and e['st'].get('blen', 0) > 4 + 65536:
+                V.violation('connection task of %s buffers %d bytes' % (e['peer'], e['st']['blen']), {'scenario': s.sc, 'level': 'task'}, None)
+                break
+    return {'task_level_scenarios': n, 'task_level_ok': ok, 'task_level_traces_accepted': acc}
